@@ -37,7 +37,7 @@ type PSpec struct {
 	StartErr      []int        `json:"start_err,omitempty"`
 	BadDir        bool         `json:"bad_dir,omitempty"`
 	ReadyLine     string       `json:"ready_line,omitempty"`
-	Probe         bool         `json:"probe,omitempty"`   // readiness http probe against the harness endpoint
+	Probe         bool         `json:"probe,omitempty"`      // readiness http probe against the harness endpoint
 	ProbeFail     int          `json:"probe_fail,omitempty"` // failure_threshold
 	Liveness      bool         `json:"liveness,omitempty"`
 	Disabled      bool         `json:"disabled,omitempty"`
@@ -63,21 +63,22 @@ type Op struct {
 }
 
 type LifeSpec struct {
-	Procs         []PSpec    `json:"procs"`
-	Ordered       bool       `json:"ordered,omitempty"`
-	Ops           []Op       `json:"ops,omitempty"`
-	Holds         []sim.Hold `json:"holds,omitempty"`
-	PerturbUs     int        `json:"perturb_us,omitempty"`
-	BackoffUnitMs int        `json:"backoff_unit_ms,omitempty"` // 0 = real seconds
-	AutoSched     bool       `json:"auto_sched,omitempty"`      // environment scheduler releases held exits / ready lines / probes
-	SchedPauseMs  int        `json:"sched_pause_ms,omitempty"`
-	ToRun         []string   `json:"to_run,omitempty"`
-	NoDeps        bool       `json:"no_deps,omitempty"`
-	SilenceMs     int        `json:"silence_ms,omitempty"` // hang rule; default 6000
-	MaxMs         int        `json:"max_ms,omitempty"`     // outer watchdog; default 60000
-	LogLength     int        `json:"log_length,omitempty"`
-	IsStrict      bool       `json:"is_strict,omitempty"`
-	EndWithShutdown bool     `json:"end_with_shutdown,omitempty"` // after ops done, if Run() still going: ShutDownProject
+	Procs           []PSpec    `json:"procs"`
+	Ordered         bool       `json:"ordered,omitempty"`
+	Ops             []Op       `json:"ops,omitempty"`
+	Holds           []sim.Hold `json:"holds,omitempty"`
+	PerturbUs       int        `json:"perturb_us,omitempty"`
+	BackoffUnitMs   int        `json:"backoff_unit_ms,omitempty"` // 0 = real seconds
+	AutoSched       bool       `json:"auto_sched,omitempty"`      // environment scheduler releases held exits / ready lines / probes
+	SchedPauseMs    int        `json:"sched_pause_ms,omitempty"`
+	ToRun           []string   `json:"to_run,omitempty"`
+	NoDeps          bool       `json:"no_deps,omitempty"`
+	SilenceMs       int        `json:"silence_ms,omitempty"` // hang rule; default 6000
+	MaxMs           int        `json:"max_ms,omitempty"`     // outer watchdog; default 60000
+	LogLength       int        `json:"log_length,omitempty"`
+	IsStrict        bool       `json:"is_strict,omitempty"`
+	EndWithShutdown bool       `json:"end_with_shutdown,omitempty"` // after ops done, if Run() still going: ShutDownProject
+	NoOutEvents     bool       `json:"no_out_events,omitempty"`
 }
 
 func (s *LifeSpec) proc(name string) *PSpec {
@@ -231,19 +232,21 @@ func BuildYAML(s *LifeSpec, worldID int, probePort int) string {
 
 // LifeRun is what the oracles look at.
 type LifeRun struct {
-	Spec     *LifeSpec
-	Events   []sim.Event
-	Outcome  sim.WaitOutcome
-	ExitCode int
-	Final    map[string]types.ProcessState // after Run() returned (or at the hang)
-	LoadErr  error
-	Dump     string
-	OpErr    map[int]string // op index -> error text ("" = nil)
-	OpDone   map[int]bool
-	World    *sim.World
-	Env      *sim.Env
+	Spec       *LifeSpec
+	Events     []sim.Event
+	Outcome    sim.WaitOutcome
+	ExitCode   int
+	Final      map[string]types.ProcessState // after Run() returned (or at the hang)
+	LoadErr    error
+	Dump       string
+	OpErr      map[int]string // op index -> error text ("" = nil)
+	OpDone     map[int]bool
+	World      *sim.World
+	Env        *sim.Env
 	YieldCount map[string]int
 	Settled    bool // every instance goroutine finished before the final snapshot
+	custom     map[string]func(env *sim.Env, lr *LifeRun, op Op) error
+	Extra      map[string]any
 }
 
 func parseWhen(s string) (kind, a string, n int) {
@@ -261,7 +264,20 @@ func parseWhen(s string) (kind, a string, n int) {
 // RunLife executes a lifecycle scenario. keep=true leaves the Env open (the
 // caller must call Cleanup) for follow-up queries.
 func RunLife(seed int64, spec *LifeSpec, post func(lr *LifeRun)) *LifeRun {
+	return RunLifeOpts(seed, spec, LifeOpts{Post: post})
+}
+
+// LifeOpts are the programmatic extras of a lifecycle run.
+type LifeOpts struct {
+	Post   func(lr *LifeRun)                                       // after Run() returned, before cleanup
+	Custom map[string]func(env *sim.Env, lr *LifeRun, op Op) error // ops with Op == "custom:<name>"
+	Setup  func(env *sim.Env, lr *LifeRun)                         // after the runner exists, before Run()
+}
+
+func RunLifeOpts(seed int64, spec *LifeSpec, lo LifeOpts) *LifeRun {
+	post := lo.Post
 	w := sim.NewWorld(seed)
+	w.NoOutEvents = spec.NoOutEvents
 	if spec.BackoffUnitMs > 0 {
 		w.BackoffUnit = time.Duration(spec.BackoffUnitMs) * time.Millisecond
 	}
@@ -297,7 +313,11 @@ func RunLife(seed int64, spec *LifeSpec, post func(lr *LifeRun)) *LifeRun {
 		return lr
 	}
 	lr.Env = env
+	lr.custom = lo.Custom
 	defer env.Cleanup()
+	if lo.Setup != nil {
+		lo.Setup(env, lr)
+	}
 	env.Start()
 
 	rng := rand.New(rand.NewSource(seed ^ 0x5eed))
@@ -369,7 +389,10 @@ func autoSched(w *sim.World, spec *LifeSpec, ps *probeServer, rng *rand.Rand, st
 			return
 		default:
 		}
-		type act struct{ kind, name string; att int }
+		type act struct {
+			kind, name string
+			att        int
+		}
 		var acts []act
 		for _, a := range w.AliveInfo() {
 			p := spec.proc(baseName(a.Name))
@@ -535,6 +558,12 @@ func runOps(lr *LifeRun, env *sim.Env, ps *probeServer, spec *LifeSpec) {
 				w.ReleaseHold(op.Proc)
 			case "sleep":
 				time.Sleep(time.Duration(op.N) * time.Millisecond)
+			default:
+				if strings.HasPrefix(op.Op, "custom:") {
+					if f := lr.custom[strings.TrimPrefix(op.Op, "custom:")]; f != nil {
+						err = f(env, lr, op)
+					}
+				}
 			}
 			mu.Lock()
 			if err != nil {
@@ -573,16 +602,16 @@ type launchRec struct {
 type procLog struct {
 	Name      string
 	InstSeq   map[int]int // instance id -> seq of its instance event
-	Instances []int // seq of instance events
+	Instances []int       // seq of instance events
 	Launches  []*launchRec
 	States    []sim.Event
 }
 
 type lifeIndex struct {
-	ev     []sim.Event
-	procs  map[string]*procLog
-	names  []string
-	runRet int // seq, -1 if none
+	ev            []sim.Event
+	procs         map[string]*procLog
+	names         []string
+	runRet        int // seq, -1 if none
 	shutdownEnter []int
 }
 
